@@ -163,6 +163,63 @@ func VerifC07_SinkError() {
 	ls.Unlock()
 }
 
+// a sink that takes part of what it is given and then fails (disk full, closed pipe), and works
+// again afterwards; Scrub changes the length of the text (a placeholder is longer or shorter
+// than the address it replaces)
+type verifPartialSink struct {
+	take  int // bytes accepted by the failing write; -1: working
+	buf   []byte
+	fails int
+}
+
+func (o *verifPartialSink) Write(p []byte) (int, error) {
+	if o.take >= 0 {
+		k := o.take
+		if k > len(p) {
+			k = len(p)
+		}
+		o.take = -1
+		o.fails++
+		o.buf = append(o.buf, p[:k]...)
+		return k, errors.New("sink failure after a partial write (stub)")
+	}
+	o.buf = append(o.buf, p...)
+	return len(p), nil
+}
+
+// Scrub as a length-changing marker: 'A' becomes "SS" (placeholder longer than the address),
+// 'L' disappears together with the byte after it (placeholder shorter)
+func verifScrubResize(b []byte) []byte {
+	var o []byte
+	for i := 0; i < len(b); i++ {
+		switch b[i] {
+		case 'A':
+			o = append(o, 'S', 'S')
+		case 'L':
+			i++
+		default:
+			o = append(o, b[i])
+		}
+	}
+	return o
+}
+
+// VerifC07_SinkPartialFailure: a sink error after a partial write, then a working sink. Nothing
+// panics, and no byte that did not go through the scrubber ever reaches the sink.
+func VerifC07_SinkPartialFailure() {
+	o := &verifPartialSink{take: verifapi.Concrete(verifapi.Choice("bytes taken before the failure", 8))}
+	ls := &LogScrubber{Output: o}
+	line := [3]string{"AAA x\n", "xLyLz w\n", "A\nLL\n"}[verifapi.Concrete(verifapi.Choice("line", 3))]
+	_, err := ls.Write([]byte(line))
+	verifapi.Assert(err != nil && o.fails == 1, "the sink's error is returned to the writer")
+	_, err = ls.Write([]byte("next\n"))
+	verifapi.Cover("sink failed partially, then worked")
+	verifapi.Assert(err == nil, "the scrubber works again once the sink does")
+	for _, c := range o.buf {
+		verifapi.Assert(c != 'A' && c != 'L', "no byte reaches the sink without having gone through the scrubber, also after a sink failure")
+	}
+}
+
 // VerifC07_ConcurrentWriters: two goroutines write through one LogScrubber at the same time
 // (log.Logger serialises its own writes, but several loggers may share the writer). Every line
 // reaches the sink whole, scrubbed, exactly once, and the scrubber's state is never accessed
